@@ -47,20 +47,72 @@ def _simple(e):
     return e.get("k") in ("Path", "Lit", "Field") or (e.get("k") == "MethodCall" and e.get("m") in ("clone", "node", "id", "as_ref") and not e.get("args"))
 
 
-def attach(syn, depth=2):
+def _owner(path):
+    for p in reversed(path):
+        if p[0] == "impl":
+            return q._ty_base(p[1])
+    return ""
+
+
+class _Fns(dict):
+    """name -> function for the names that are unique in the file; `typed[(owner type, name)]` for methods that share a
+    name across types (`GcHeap::sweep` / `VmGreenThread::sweep`), resolved from the receiver: `self.m()` is the enclosing
+    function's own type, `self.field.m()` the declared type of that field."""
+
+    typed = None
+    fields = None
+
+
+def attach(syn, depth=3):
     for file, fd in syn.get("files", {}).items():
-        fns = {}
+        fns = _Fns()
+        fns.typed = {}
+        fns.fields = {}
         dup = set()
         for it, path in q.iter_items(fd["items"]):
             if it["k"] == "Fn" and it.get("body") is not None:
                 if it["name"] in fns:
                     dup.add(it["name"])
                 fns[it["name"]] = it
+                fns.typed[(_owner(path), it["name"])] = it
+            if it["k"] == "StructDef":
+                for fl in it.get("fields", []):
+                    fns.fields[(it["name"], fl["name"])] = q._ty_base(fl["ty"]) if hasattr(q, "_ty_base") else fl["ty"]
         for name in dup:
             fns.pop(name, None)
+        fns.dup = dup
         for it, path in q.iter_items(fd["items"]):
             if it["k"] == "Fn" and it.get("body") is not None:
-                _attach_in(it["body"], fns, {}, depth, {it["name"]})
+                _attach_in(it["body"], fns, {}, depth, {it["name"]}, _owner(path))
+
+
+def _resolve_method(x, fns, owner):
+    """The function a method call refers to: by unique name, or by (receiver type, name) where the receiver's type is evident."""
+    m = x["m"]
+    if m in COMMON:
+        return None, owner
+    if m in fns:
+        f = fns[m]
+        for (o, n), g in (fns.typed or {}).items():
+            if g is f:
+                return f, o
+        return f, owner
+    if m in getattr(fns, "dup", ()):
+        r = x["recv"]
+        while r.get("k") in ("Ref", "Paren", "Unary"):
+            r = r.get("e") or {}
+        ty = None
+        if r.get("k") == "Path" and r.get("p") == "self":
+            ty = owner
+        elif r.get("k") == "Field" and r["e"].get("k") == "Path" and r["e"].get("p") == "self":
+            ty = (fns.fields or {}).get((owner, r["f"]))
+        elif r.get("k") == "Field":
+            # `vm.heap.m()`: the field name alone, when only one struct has a field of that name
+            tys = {t for (st, fl), t in (fns.fields or {}).items() if fl == r["f"]}
+            ty = next(iter(tys)) if len(tys) == 1 else None
+        if ty and (ty, m) in fns.typed:
+            return fns.typed[(ty, m)], ty
+    return None, owner
 
 
 def _closures(body):
@@ -71,7 +123,7 @@ def _closures(body):
     return out
 
 
-def _attach_in(body, fns, closures, depth, stack):
+def _attach_in(body, fns, closures, depth, stack, owner=""):
     if depth <= 0:
         return
     closures = dict(closures)
@@ -89,13 +141,13 @@ def _attach_in(body, fns, closures, depth, stack):
                 c = closures[name]
                 callee, cbody = name, c["body"]
                 params = [q.pat_bindings(p) for p in c.get("params", [])]
-            elif seg in fns and seg not in COMMON and seg not in stack:
-                f = fns[seg]
+            elif seg not in COMMON and seg not in stack and (seg in fns or ("::" in name and ((owner if name.split("::")[-2] == "Self" else name.split("::")[-2]), seg) in (fns.typed or {}))):
+                f = fns[seg] if seg in fns else fns.typed[((owner if name.split("::")[-2] == "Self" else name.split("::")[-2]), seg)]
                 callee, cbody = seg, f["body"]
                 params = [q.pat_bindings(p["pat"]) for p in f["params"] if not p.get("self")]
-        elif k == "MethodCall" and x["m"] in fns and x["m"] not in COMMON and x["m"] not in stack:
-            f = fns[x["m"]]
-            if any(p.get("self") for p in f["params"]):
+        elif k == "MethodCall" and x["m"] not in COMMON and x["m"] not in stack:
+            f, callee_owner = _resolve_method(x, fns, owner)
+            if f is not None and any(p.get("self") for p in f["params"]):
                 callee, cbody, recv = x["m"], f["body"], x["recv"]
                 params = [q.pat_bindings(p["pat"]) for p in f["params"] if not p.get("self")]
         if callee is None or cbody is None or _size(cbody) > MAX_NODES:
@@ -111,7 +163,7 @@ def _attach_in(body, fns, closures, depth, stack):
                 mapping[names[0]] = arg
         _subst(b, mapping)
         x["inl"] = {"k": "Inl", "callee": callee, "closure": callee in closures and k == "Call" and "::" not in x["f"]["p"], "params": [(n[0] if n else None) for n in params], "body": b, "l": x.get("l", 0)}
-        _attach_in(b, fns, closures, depth - 1, stack | {callee})
+        _attach_in(b, fns, closures, depth - 1, stack | {callee}, callee_owner if (k == "MethodCall" and recv is not None) else owner)
 
 
 def walk_inl(n):
